@@ -419,6 +419,20 @@ func c16Run(c c16Case, seed string) (sig, msg string, nontrivial bool, inconclus
 			case "challenge-as-data":
 				data = append([]byte(nil), m.challenge[about.Addr]...)
 				authentic = false
+			case "forged-after-own-read":
+				// the owner reads first (the node caches the answer asynchronously), then somebody without the key asks
+				own := signedHash(about.Addr, []byte(about.Addr), about)
+				call(func() (*protobufcompiled.Spice, error) { return s.notary.Balance(ctx, own) })
+				for k := 0; k < 200; k++ {
+					if _, err := s.hip.ReadBalance(about.Addr); err == nil {
+						break
+					}
+					time.Sleep(500 * time.Microsecond)
+				}
+				noteBalances()
+				signer = wal(op.By)
+				authentic = signer.Addr == about.Addr
+				labels["forged-balance-after-cached-own-read"]++
 			}
 			nontrivial = nontrivial || !authentic
 			req := signedHash(about.Addr, data, signer)
@@ -518,7 +532,7 @@ func TestC16(t *testing.T) {
 			case "waiting", "history":
 				op.Variant = rapid.SampledFrom([]string{"fresh", "fresh", "superseded", "foreign-challenge", "other-key", "no-challenge"}).Draw(rt, "variant")
 			case "balance":
-				op.Variant = rapid.SampledFrom([]string{"own", "own", "other-key", "data-not-address", "challenge-as-data"}).Draw(rt, "variant")
+				op.Variant = rapid.SampledFrom([]string{"own", "own", "other-key", "data-not-address", "challenge-as-data", "forged-after-own-read", "forged-after-own-read"}).Draw(rt, "variant")
 			}
 			c.Ops = append(c.Ops, op)
 		}
